@@ -1,6 +1,7 @@
 """C20 density sketch (DESIGN.md section 5 C20): thin structural clauses."""
 import quantile_rules as Q
 import cowrite
+import generic_lints
 
 
 def run(facts, tier):
@@ -10,6 +11,7 @@ def run(facts, tier):
         ("iterator", lambda fa: Q.iterator_rules(fa, ("density/",)), 3, "iterator constructor couples level and height like operator++"),
         ("compaction loop", lambda fa: [o for o in Q.compaction_triggers(fa) if o["key"].startswith("density")], 2, "compaction repeats while num_retained_ >= k * levels"),
         ("couplings", lambda fa: cowrite.obligations(fa, ['density_sketch']), 2, "fields that every mutator updates together (counters, extremes, cached values) are still updated together"),
+        ("duplicate operands", lambda fa: generic_lints.duplicate_conjuncts(fa, ('density/',)), 2, "no logical chain tests the same operand twice (copy-paste of the wrong peer)"),
     ):
         o = f(facts)
         obs += o
